@@ -225,8 +225,8 @@ func c08(r *core.Run) {
 			}
 			return core.StateSet(0).Add(s)
 		}
-		fl.Branch = func(iff *ssa.If, succ int, s int) (int, bool) {
-			ci := core.Cond(iff.Cond)
+		fl.BranchOn = func(cond ssa.Value, succ int, s int) (int, bool) {
+			ci := core.Cond(cond)
 			if m.hasAppl && ci.Kind == "nilcmp" && ci.HasFld && ci.Field == m.applyF {
 				truth := succ == 0
 				if ci.Negate {
@@ -239,6 +239,7 @@ func c08(r *core.Run) {
 			}
 			return s, true
 		}
+		fl.Branch = func(iff *ssa.If, succ int, s int) (int, bool) { return fl.BranchOn(iff.Cond, succ, s) }
 		res := fl.Run()
 		for _, c := range m.P {
 			st := res.Before[c]
@@ -338,13 +339,15 @@ func c08(r *core.Run) {
 					param = prm
 				}
 			}
-			kindOf := func(iff *ssa.If) (string, int) {
-				ci := core.Cond(iff.Cond)
-				if ci.Kind != "lencmp" || ci.Const == nil || ci.Const.ExactString() != "0" || ci.Op != token.EQL {
+			// a condition value that tests the emptiness of the argument / of the revert map: kind and
+			// the outcome (0 = condition true, 1 = false) that means "empty"
+			kindOf := func(cond ssa.Value) (string, int) {
+				ci := core.Cond(cond)
+				if ci.Kind != "lencmp" || ci.Const == nil || ci.Const.ExactString() != "0" || (ci.Op != token.EQL && ci.Op != token.NEQ) {
 					return "", 0
 				}
 				succ := 0
-				if ci.Negate {
+				if ci.Negate != (ci.Op == token.NEQ) {
 					succ = 1
 				}
 				if ci.X == param {
@@ -358,40 +361,54 @@ func c08(r *core.Run) {
 			nEmptyArg, nEmptyRev := 0, 0
 			for _, f2 := range m.scope {
 				for _, b := range f2.Blocks {
-					iff, ok := b.Instrs[len(b.Instrs)-1].(*ssa.If)
-					if !ok {
-						continue
-					}
-					what, succ := kindOf(iff)
-					if what == "" {
-						continue
-					}
-					if what == "empty-argument" {
-						nEmptyArg++
-					} else {
-						nEmptyRev++
-					}
-					// flow: state 1 = passed this edge
-					fl2 := &core.Flow{Fn: fn, Entry: core.StateSet(0).Add(0), Tags: true, Inline: func(cal *ssa.Function) bool { return inScope[cal] && cal != fn }}
-					theIf, theSucc := iff, succ
-					fl2.Branch = func(i2 *ssa.If, sc int, st int) (int, bool) {
-						if i2 == theIf && sc == theSucc {
-							return 1, true
+					for _, cin := range b.Instrs {
+						bo, ok := cin.(*ssa.BinOp)
+						if !ok {
+							continue
 						}
-						return st, true
-					}
-					res2 := fl2.Run()
-					noPL, why := true, ""
-					for _, f3 := range m.scope {
-						for _, bb := range f3.Blocks {
-							for _, in := range bb.Instrs {
-								if isPL(in) && res2.Before[in].Has(1) {
-									noPL, why = false, "reaches the publish/listener call at "+p.InstrPos(in)
+						if bt, ok := bo.Type().Underlying().(*types.Basic); !ok || bt.Kind() != types.Bool {
+							continue
+						}
+						what, succ := kindOf(bo)
+						if what == "" {
+							continue
+						}
+						if what == "empty-argument" {
+							nEmptyArg++
+						} else {
+							nEmptyRev++
+						}
+						// flow: state 1 = the condition was decided as "empty" on this path (by an If on it, or by
+						// an If on a flag that holds its value)
+						fl2 := &core.Flow{Fn: fn, Entry: core.StateSet(0).Add(0), Tags: true, Inline: func(cal *ssa.Function) bool { return inScope[cal] && cal != fn }}
+						theCond, theSucc := ssa.Value(bo), succ
+						fl2.BranchOn = func(c2 ssa.Value, sc int, st int) (int, bool) {
+							for {
+								u, ok := c2.(*ssa.UnOp)
+								if !ok || u.Op != token.NOT {
+									break
+								}
+								c2, sc = u.X, 1-sc
+							}
+							if c2 == theCond && sc == theSucc {
+								return 1, true
+							}
+							return st, true
+						}
+						fl2.Branch = func(i2 *ssa.If, sc int, st int) (int, bool) { return fl2.BranchOn(i2.Cond, sc, st) }
+						res2 := fl2.Run()
+						noPL, why := true, ""
+						for _, f3 := range m.scope {
+							for _, bb := range f3.Blocks {
+								for _, in := range bb.Instrs {
+									if isPL(in) && res2.Before[in].Has(1) {
+										noPL, why = false, "reaches the publish/listener call at "+p.InstrPos(in)
+									}
 								}
 							}
 						}
+						r.Check(noPL, "O3", fname, what+"-edge->no-publish", p.InstrPos(bo), "the nothing-changed edge reaches no publish and no listener", "the nothing-changed edge still publishes or notifies: "+why)
 					}
-					r.Check(noPL, "O3", fname, what+"-edge->no-publish", p.InstrPos(iff), "the nothing-changed edge reaches no publish and no listener", "the nothing-changed edge still publishes or notifies: "+why)
 				}
 			}
 			r.Check(nEmptyArg > 0, "O3", fname, "tests-empty-argument", p.Pos(fn.Pos()), "an empty change map is detected", "an empty change map is not detected: an empty change event is published")
